@@ -206,7 +206,7 @@ def run(f, fixture, rep, cfg, tier):
         region = {x for x in reach_from(pd, sc[0].bb) if pd.dominates(sc[0].bb, x)}
         was = dom_sorted(pd, [c for c in pd.calls() if c.bb in region and c.decl == "std::io::Write::write_all" and render(tp.term(c.args[0])).startswith("rpm::headers::types::Sha256Writer")])
         ws = [render(tp.term(c.args[1])) for c in was][:3]
-        ok = len(ws) == 3 and ws[0].startswith("rpm::payload::stripped_cpio_header(") and ws[1].endswith(".content") and ws[2].startswith("rpm::payload::pad(std::vec::Vec::<T, A>::len(") and ".content))<Some>.0" in ws[2]
+        ok = len(ws) == 3 and ws[0].startswith("rpm::payload::stripped_cpio_header(") and ws[1].endswith(".content") and re.fullmatch(r"rpm::payload::pad\((?:std::vec::Vec::<T, A>|core::slice::<impl \[T\]>)::len\(.*\.content\)\)<Some>\.0", ws[2]) is not None
         rep.check(ok, "R3", "builder|stripped-entry", "large-file entry = stripped header, content, padding of content to 4", "large-file branch writes %s" % [w[:70] for w in ws], sc[0].loc())
     fin = f.one("payload::Reader::<R>::finish")
     tf = TermBuilder(fin)
